@@ -15,7 +15,8 @@
     the step of the round it left ([C08_step_is_stale_while_awaiting]). *)
 From Coq Require Import List NArith.
 From GV Require Import Base.Ints Gen.Math Gen.StepSM Model.StateMachine Proofs.SMInv Proofs.SMInvStep Proofs.SMRel
-  Proofs.SMInvActs Proofs.SMWitness Proofs.SMOnce Proofs.SMOnceRel Proofs.SMOnceStep Proofs.SMOnceHist.
+  Proofs.SMTheorems Proofs.SMInvActs Proofs.SMWitness Proofs.SMOnce Proofs.SMOnceRel Proofs.SMOnceStep Proofs.SMOnceHist
+  Proofs.SMOnceSign.
 Import ListNotations.
 Local Open Scope N_scope.
 
@@ -106,3 +107,35 @@ Theorem C08_step_is_stale_while_awaiting :
   rS (rl s1) = StepPrecommitDelay /\ rS (rl s2) = StepAwaitingProposal /\ cur s1 = (1, 1) /\ cur s2 = (1, 1).
 Proof. exact ex_step_stale_while_awaiting. Qed.
 Print Assumptions C08_step_is_stale_while_awaiting.
+
+(** ** Rounds entered strictly increase across a process lifetime
+    (per step: Properties/C08.v C08_entrances_strictly_increase; here lifted to histories).
+    In one lifetime (a history continued by [es2] without Stop from any reachable state), while neither
+    counter is at its last value ([nowrap] in every state passed), a round entrance announced by a later
+    event is for a lexicographically greater (height, round) than one announced by an earlier event ... *)
+Theorem C08_entrances_strictly_increase_lifetime : forall sg es1 es2 i j oi oj h1 r1 pk1 a1 h2 r2 pk2 a2,
+  let s1 := final_state (sm0 sg) es1 in
+  ~ In EvStop es2 -> along nowrap s1 es2 -> (i < j)%nat ->
+  nth_error (run_events s1 es2) i = Some oi -> nth_error (run_events s1 es2) j = Some oj ->
+  In (ORoundEntrance h1 r1 pk1 a1) oi -> In (ORoundEntrance h2 r2 pk2 a2) oj -> hr_lt (h1, r1) (h2, r2).
+Proof.
+  exact (fun sg es1 es2 i j oi oj h1 r1 pk1 a1 h2 r2 pk2 a2 NS AL =>
+    entrances_increase_lifetime es2 _ (le7_reachable sg es1) NS AL i j oi oj h1 r1 pk1 a1 h2 r2 pk2 a2).
+Qed.
+Print Assumptions C08_entrances_strictly_increase_lifetime.
+
+(** ... one event announces at most one round entrance ... *)
+Theorem C08_one_entrance_per_event : forall sg es e,
+  (ents (snd (step (final_state (sm0 sg) es) e)) <= 1)%nat.
+Proof. exact one_entrance_per_event. Qed.
+Print Assumptions C08_one_entrance_per_event.
+
+(** ... and it is the last output of its event, for the round the machine is in afterwards, and the
+    machine then awaits the response *)
+Theorem C08_entrance_is_for_the_round_entered : forall sg es e h r pk act,
+  let s := final_state (sm0 sg) es in
+  In (ORoundEntrance h r pk act) (snd (step s e)) ->
+  e <> EvStop /\ awaiting (fst (step s e)) /\ cur (fst (step s e)) = (h, r) /\ ents (snd (step s e)) = 1%nat /\
+  (run s = Idle \/ awaiting s \/ run s = NotStarted).
+Proof. exact (fun sg es e h r pk act => ent_facts _ e h r pk act (le7_reachable sg es)). Qed.
+Print Assumptions C08_entrance_is_for_the_round_entered.
